@@ -576,6 +576,31 @@ theorem remote_render_newline_witness :
 
 example : remoteUrl (bs "/r") none (bs "HTTP://h/a b") = some (bs "http://h/a%20b") := by decide +kernel
 
+/-! ## the empty base URL -/
+
+/-- `normalize_url('')` is the working directory: the empty string is a base URL like any other -/
+theorem normalizeUrl_empty (cwd : Bytes) : normalizeUrl cwd none [] = mkFile (joinPath cwd []) := by
+  unfold normalizeUrl
+  simp [lstrip, urlsplit, splitScheme, breakAt, isLocalScheme, startsWith, fromUri, strip, windowsForm, unquote, isAbsPath, urn]
+
+/-- `base_url=''` IS a sandbox base (`some [] ≠ none`): the constructor derives nothing from the
+    source (xml_resource.py:166 tests `base_url is None`) and `access_control` enforces the sandbox
+    (xml_resource.py:331 tests `self._base_url is not None`), which is then the working directory. -/
+theorem sandbox_empty_base_confined (cwd loc : Bytes) (hcwd : isAbsPath cwd = true) :
+    effectiveBase .sandbox cwd (some []) loc = some (some []) ∧
+    ((resolve .sandbox cwd (some []) loc).decision = some .ok →
+      ∃ p u, (resolve .sandbox cwd (some []) loc).norm = .file p u ∧
+        Under (normpath (joinPath cwd [])) p ∧ ∀ c ∈ comps p, CleanComp c) := by
+  refine ⟨by simp [effectiveBase], fun h => ?_⟩
+  obtain ⟨p, u, d, du, hn, hd, hu, hc⟩ := resolve_sandbox_confined cwd [] loc hcwd h
+  rw [normalizeUrl_empty] at hd
+  simp only [mkFile, Norm.file.injEq] at hd
+  exact ⟨p, u, hn, by rw [hd.1]; exact hu, hc⟩
+
+example : (resolve .sandbox (bs "/r/s") (some []) (bs "../o/x")).decision = some .blockedSandbox ∧
+    (resolve .sandbox (bs "/r/s") (some []) (bs "sub/x")).decision = some .ok ∧
+    (resolve .sandbox (bs "/r/s") none (bs "../o/x")).decision = some .ok := by decide +kernel
+
 /-! ## known defect of the call sites that pass no base URL (C12-F2 / C12-F3) -/
 
 /-- A resource constructed in sandbox mode WITHOUT a base URL takes the directory of its own
